@@ -26,10 +26,12 @@ pub(crate) fn update_backtracks<A>(dfa: &mut DFA<StateIdx, A>) {
         // Did we visit the state, with the right backtrack state?
         match visited.entry(state) {
             Entry::Occupied(mut entry) => {
-                if *entry.get() == backtrack {
+                // Backtrack states only change from `false` to `true`, otherwise a state reachable
+                // both with and without an earlier accepting state flips back and forth.
+                if *entry.get() || !backtrack {
                     continue;
                 }
-                entry.insert(backtrack);
+                entry.insert(true);
             }
             Entry::Vacant(entry) => {
                 entry.insert(backtrack);
